@@ -216,25 +216,25 @@ def write_fasta(
 
 
 def _build_newick(tree, *, node, precision, node_labels, include_branch_lengths):
-    label = node_labels.get(node, "")
-    if tree.is_leaf(node):
-        s = f"{label}"
-    else:
-        s = "("
-        for child in tree.children(node):
-            branch_length = tree.branch_length(child)
-            subtree = _build_newick(
-                tree,
-                node=child,
-                precision=precision,
-                node_labels=node_labels,
-                include_branch_lengths=include_branch_lengths,
-            )
+    # Iterative traversal: a recursive version fails on trees that are deeper
+    # than the interpreter's recursion limit.
+    parts = []
+    stack = [(node, False)]
+    while len(stack) > 0:
+        u, children_done = stack.pop()
+        if not children_done and not tree.is_leaf(u):
+            parts.append("(")
+            stack.append((u, True))
+            stack.extend((child, False) for child in reversed(tree.children(u)))
+            continue
+        label = node_labels.get(u, "")
+        parts.append(f"){label}" if children_done else f"{label}")
+        if u != node:
             if include_branch_lengths:
-                subtree += ":{0:.{1}f}".format(branch_length, precision)
-            s += subtree + ","
-        s = s[:-1] + f"){label}"
-    return s
+                parts.append(":{0:.{1}f}".format(tree.branch_length(u), precision))
+            if tree.right_sib(u) != tskit.NULL:
+                parts.append(",")
+    return "".join(parts)
 
 
 def build_newick(tree, *, root, precision, node_labels, include_branch_lengths):
